@@ -32,6 +32,7 @@ impl Chooser {
         Ok(chosen)
     }
 
+    pub fn forced_len(&self) -> usize { self.forced.len() }
     pub fn choices(&self) -> Vec<u32> { self.trace.iter().map(|p| p.chosen).collect() }
     pub fn deviations(&self) -> u32 { self.trace.iter().map(|p| if p.chosen != 0 { p.cost } else { 0 }).sum() }
 }
